@@ -128,7 +128,16 @@ def execLocal (s : DState) (ts : Ts) (b : OpBody) : Outcome (DState × OpBody ×
 /-- ExecuteRemote of counter/map/list (errors are dropped by executeRemoteBase; a panic is not) -/
 def execRemote (s : DState) (ts : Ts) (b : OpBody) : Outcome DState :=
   match s, b with
-  | _, .snapshot s' => .ok s'          -- ApplySnapshot: json.Unmarshal into the snapshot
+  -- ApplySnapshot: json.Unmarshal into the snapshot; a snapshot of another datatype type has none of
+  -- the expected fields, which leaves the zero value (an empty datatype)
+  | .counter _, .snapshot (.counter v) => .ok (.counter v)
+  | .map _, .snapshot (.map m) => .ok (.map m)
+  | .list _, .snapshot (.list l) => .ok (.list l)
+  | .doc _, .snapshot (.doc d) => .ok (.doc d)
+  | .counter _, .snapshot _ => .ok (.counter 0)
+  | .map _, .snapshot _ => .ok (.map LwwMap.empty)
+  | .list _, .snapshot _ => .ok (.list Rga.empty)
+  | .doc _, .snapshot _ => .ok (.doc Doc.empty)
   | .counter v, .increase d => .ok (.counter (counterIncrease v d))
   | .map m, .put k v => .ok (.map (m.putCommon k v ts).1)
   | .map m, .remove k => .ok (.map (m.removeRemote k ts).1)
